@@ -44,6 +44,14 @@ pub fn entry_points() -> Vec<(&'static str, u8, Draw)> {
         ("DryocBox::seal ephemeral key", 0, || { let pk = StackByteArray::<32>::from(&[9u8; 32]); let b = dryoc::dryocbox::VecBox::seal_to_vecbox(b"abc", &pk).unwrap(); b.to_vec()[..32].to_vec() }),
         ("crypto_secretstream init_push header", 0, || { let mut st = cs::State::new(); let mut h = [0u8; 24]; cs::crypto_secretstream_xchacha20poly1305_init_push(&mut st, &mut h, &[1u8; 32]); h.to_vec() }),
         ("DryocStream::init_push header", 0, || { let k = StackByteArray::<32>::from(&[1u8; 32]); let (_s, h): (_, dryoc::dryocstream::Header) = dryoc::dryocstream::DryocStream::init_push(&k); h.as_slice().to_vec() }),
+        // requests longer than any internal key, around the 256-byte mark and beyond (cost class 3: few calls, long values)
+        ("rng::copy_randombytes 257 bytes", 3, || { let mut b = vec![0u8; 257]; dryoc::rng::copy_randombytes(&mut b); b }),
+        ("rng::copy_randombytes 1000 bytes", 3, || { let mut b = vec![0u8; 1000]; dryoc::rng::copy_randombytes(&mut b); b }),
+        ("rng::copy_randombytes 5000 bytes", 3, || { let mut b = vec![0u8; 5000]; dryoc::rng::copy_randombytes(&mut b); b }),
+        ("rng::randombytes_buf 300 bytes", 3, || dryoc::rng::randombytes_buf(300)),
+        ("rng::randombytes_buf 4097 bytes", 3, || dryoc::rng::randombytes_buf(4097)),
+        ("StackByteArray<300>::gen", 3, || StackByteArray::<300>::gen().as_slice().to_vec()),
+        ("[u8; 1000]::gen", 3, || <[u8; 1000] as NewByteArray<1000>>::gen().to_vec()),
         ("PwHash::hash salt", 1, || { let cfg = dryoc::pwhash::Config::interactive().with_opslimit(1).with_memlimit(8192); let p = dryoc::pwhash::PwHash::<Vec<u8>, Vec<u8>>::hash(b"pw", cfg).unwrap(); let (_h, s, _c) = p.into_parts(); s }),
         ("PwHash::hash salt (salt_length 8)", 1, || { let cfg = dryoc::pwhash::Config::interactive().with_opslimit(1).with_memlimit(8192).with_salt_length(8); let p = dryoc::pwhash::PwHash::<Vec<u8>, Vec<u8>>::hash(b"pw", cfg).unwrap(); let (_h, s, _c) = p.into_parts(); s }),
         ("PwHash::hash salt (salt_length 17)", 1, || { let cfg = dryoc::pwhash::Config::interactive().with_opslimit(1).with_memlimit(8192).with_salt_length(17); let p = dryoc::pwhash::PwHash::<Vec<u8>, Vec<u8>>::hash(b"pw", cfg).unwrap(); let (_h, s, _c) = p.into_parts(); s }),
@@ -70,9 +78,38 @@ pub fn entry_points() -> Vec<(&'static str, u8, Draw)> {
     v
 }
 
+/// nightly: generators of locked containers while the operating system refuses every lock request.  A call may fail
+/// (panic or Err: no value is returned); a value that IS returned must be as fresh as any other.
+#[cfg(feature = "nightly")]
+pub fn refused_entry_points() -> Vec<(&'static str, fn() -> Option<Vec<u8>>)> {
+    use dryoc::protected::*;
+    vec![
+        ("Locked<HeapByteArray>::gen [locks refused]", || Some(<Locked<HeapByteArray<32>> as NewByteArray<32>>::gen().as_slice().to_vec())),
+        ("HeapByteArray::gen_locked [locks refused]", || HeapByteArray::<32>::gen_locked().ok().map(|k| k.as_slice().to_vec())),
+        ("HeapByteArray::gen_readonly_locked [locks refused]", || HeapByteArray::<32>::gen_readonly_locked().ok().map(|k| k.as_slice().to_vec())),
+        ("KeyPair::gen_locked_keypair [locks refused]", || dryoc::dryocbox::protected::LockedKeyPair::gen_locked_keypair().ok().map(|k| [k.secret_key.as_slice(), k.public_key.as_slice()].concat())),
+        ("SigningKeyPair::gen_locked_keypair [locks refused]", || dryoc::sign::protected::LockedSigningKeyPair::gen_locked_keypair().ok().map(|k| k.secret_key.as_slice().to_vec())),
+        ("LockedKdf::gen [locks refused]", || { let k: dryoc::kdf::protected::LockedKdf = dryoc::kdf::Kdf::gen(); let (a, b) = k.into_parts(); Some([a.as_slice(), b.as_slice()].concat()) }),
+    ]
+}
+#[cfg(not(feature = "nightly"))]
+pub fn refused_entry_points() -> Vec<(&'static str, fn() -> Option<Vec<u8>>)> { vec![] }
+
+fn shim(budget: i32) -> bool {
+    type SetFn = unsafe extern "C" fn(i32);
+    unsafe {
+        let f = libc::dlsym(libc::RTLD_DEFAULT, b"mlockfail_set\0".as_ptr() as *const _);
+        if f.is_null() { return false; }
+        let f: SetFn = std::mem::transmute(f);
+        f(budget);
+        true
+    }
+}
+
 /// `rng-list`: the names, one per line
 pub fn cmd_list(_args: &[String]) {
     for (n, _, _) in entry_points() { println!("{}", n); }
+    for (n, _) in refused_entry_points() { println!("{}", n); }
 }
 
 /// `rng-trace <out.ndjson> <n cheap> <n pwhash> <n default-cost>`
@@ -82,7 +119,7 @@ pub fn cmd_trace(args: &[String]) {
     let n2: usize = args[3].parse().unwrap();
     let mut out = std::io::BufWriter::new(std::fs::File::create(&args[0]).unwrap());
     for (name, cost, f) in entry_points() {
-        let n = match cost { 0 => n0, 1 => n1, _ => n2 };
+        let n = match cost { 0 => n0, 1 => n1, _ => n2.max(10) };
         for _ in 0..n {
             match catch(|| f()) {
                 Ok(v) => writeln!(out, "{}", json!({"ev": "draw", "e": name, "v": v})).unwrap(),
@@ -90,5 +127,23 @@ pub fn cmd_trace(args: &[String]) {
             }
         }
         writeln!(out, "{}", json!({"ev": "done", "e": name, "v": []})).unwrap();
+    }
+    // locks refused (nightly): needs the mlock interposer
+    let refused = refused_entry_points();
+    if !refused.is_empty() {
+        if !shim(0) { eprintln!("HARNESS: mlock interposer not loaded (LD_PRELOAD)"); std::process::exit(3); }
+        shim(-1);
+        for (name, f) in refused {
+            for _ in 0..n1 {
+                shim(0);
+                let r = catch(|| f());
+                shim(-1);
+                match r {
+                    Ok(Some(v)) => writeln!(out, "{}", json!({"ev": "draw", "e": name, "v": v})).unwrap(),
+                    _ => writeln!(out, "{}", json!({"ev": "novalue", "e": name, "v": []})).unwrap(),
+                }
+            }
+            writeln!(out, "{}", json!({"ev": "done", "e": name, "v": []})).unwrap();
+        }
     }
 }
